@@ -314,6 +314,24 @@ Proof.
 Qed.
 Print Assumptions C12_sha1_padding.
 
+(* FIPS 180-4 6.1.2 step 1, for EVERY 16-word block: the schedule has 80 words, W_t = M_t for t < 16 and
+   W_t = ROTL^1 (W_(t-3) xor W_(t-8) xor W_(t-14) xor W_(t-16)) for 16 <= t < 80; a 64-octet block has 16
+   words; the word operations are addition mod 2^32 and stay below 2^32 *)
+Theorem C12_sha1_schedule : forall w16, length w16 = 16%nat ->
+  length (schedule w16) = 80%nat /\
+  (forall t, (t < 16)%nat -> nth t (schedule w16) 0 = nth t w16 0) /\
+  (forall t, (16 <= t < 80)%nat ->
+     nth t (schedule w16) 0 =
+       rotl32 1 (N.lxor (N.lxor (nth (t - 3) (schedule w16) 0) (nth (t - 8) (schedule w16) 0))
+                        (N.lxor (nth (t - 14) (schedule w16) 0) (nth (t - 16) (schedule w16) 0)))).
+Proof. exact sha1_schedule. Qed.
+Print Assumptions C12_sha1_schedule.
+
+Theorem C12_sha1_words : (forall blk, length blk = 64%nat -> length (words_of blk) = 16%nat) /\
+  (forall a b, add32 a b = (a + b) mod 2 ^ 32) /\ (forall n x, rotl32 n x < 2 ^ 32).
+Proof. split; [intros blk L; apply words_of_length; exact L | split; [exact add32_mod | exact rotl32_lt]]. Qed.
+Print Assumptions C12_sha1_words.
+
 (* RFC 4880 12.2 with the model's own SHA-1: for every well-formed v4 public (sub)key packet body the
    fingerprint is sha1 (0x99 || 2-octet length || body), and the description shows it as 40 upper-case
    hex digits without separators (strings.ToUpper(hex.EncodeToString(pk.Fingerprint[:]))) *)
